@@ -560,13 +560,27 @@ def run(ctx):
     counters = {"sig_count": {}, "refusal_cases": 0, "refs_differ_from_model": 0, "refs_examples": [], "manifests": {}, "cargo_metadata_runs": 0}
     rendered = [render(c) for c in cases]
 
+    # ---- calibration: prepare_project is private, the replica exists in two variants (entry-module-only scan as
+    # written / scanning dependency modules as after the proposed repair); use the one the real CLI agrees with
+    stub = stub_dir(ctx)
+    probe_case = {"name": "main", "layout": "flat", "place": {f: ("mod" if f == "json" else "none") for f in FEATS}}
+    pe, pf = render(probe_case)
+    pcli = cli_build(ctx, "probe", pe, pf, stub)
+    pd = os.path.join(ctx.work, "probe_inproc")
+    pouts = common.replay_batch([{"op": "gen_project", "dir": pd, "files": pf, "entry": pe, "out": os.path.join(pd, "out"),
+                                  "scan_deps": v} for v in (False, True)])
+    shutil.rmtree(pd, ignore_errors=True)
+    match = [v for v, o in zip((False, True), pouts) if o.get("obs", {}).get("cargo_toml") == pcli.get("cargo_toml")]
+    scan_deps = match[0] if match else False
+    ctx.stats["replica_variant"] = "scan_dependency_modules" if scan_deps else "entry_module_only (as written)"
+
     # ---- (a) in process, every case
     base = os.path.join(ctx.work, "inproc")
     shutil.rmtree(base, ignore_errors=True)
     reqs = []
     for i, (c, (entry, files)) in enumerate(zip(cases, rendered)):
         reqs.append({"op": "gen_project", "dir": os.path.join(base, str(i)), "files": files, "entry": entry,
-                     "out": os.path.join(base, str(i), "out")})
+                     "out": os.path.join(base, str(i), "out"), "scan_deps": scan_deps})
     with ctx.timed("replay_inproc"):
         outs = par_replay(reqs)
     shutil.rmtree(base, ignore_errors=True)
@@ -597,8 +611,7 @@ def run(ctx):
     if ctx.quick:
         small = [i for i in idxs if sum(1 for p in cases[i]["place"].values() if p != "none") <= 2]
         big = [i for i in idxs if i not in set(small)]
-        idxs = small + rnd.sample(big, min(len(big), 500))
-    stub = stub_dir(ctx)
+        idxs = small + rnd.sample(big, min(len(big), 250))
     shutil.rmtree(os.path.join(ctx.work, "cli"), ignore_errors=True)
     with ctx.timed("cli_build_stub_cargo"):
         with concurrent.futures.ThreadPoolExecutor(max_workers=8) as ex:
@@ -625,7 +638,10 @@ def run(ctx):
 
     # ---- (c) real cargo validates every distinct manifest
     with ctx.timed("cargo_metadata"):
-        cargo_metadata_check(ctx, list(counters["manifests"].keys()), counters)
+        distinct = sorted(counters["manifests"].keys())
+        if ctx.quick and len(distinct) > 40:
+            distinct = rnd.sample(distinct, 40)
+        cargo_metadata_check(ctx, distinct, counters)
 
     # ---- optional e2e: build a few projects whose crates are in the offline cache (thorough only)
     e2e = {}
